@@ -66,3 +66,7 @@ pub fn def() -> CheckDef {
         })],
     }
 }
+
+pub fn check_pub(input: &APacket, case: &mut Case) -> Result<(), Fail> {
+    check(input, case)
+}
